@@ -29,6 +29,9 @@ Turtle reader gets the same document as a control).
 Two more families: a .gz file made of TWO gzip members (key <format>-gz:multi-member; all seven formats) and, in one process, a zip
 archive that is REPLACED at the same path by an archive holding another graph between two Shaper runs (key zip:stale-archive).
 
+If NO other format agrees with the raw N-Triples reference while at least two thirds of the other formats agree among themselves,
+the reference is outvoted for that graph and the nt channels are the ones reported (C08:channel-differs:nt-raw / nt).
+
 Finding keys
     C08:channel-differs:<format>-gz:multi-member         only the two-member .gz file disagrees (the one-member .gz agrees)
     C08:channel-differs:zip:stale-archive                second run on a replaced archive disagrees with its own graph
@@ -465,6 +468,10 @@ def check_case(case, R):
             except U.Skipped as exc:
                 outs[i] = exc
 
+        def sides_with(cand, o):
+            d = difference(cand, o, T, cfg, t)
+            return d is None or d[0] == "tie"
+
         def plain(fmt, how):
             for j, w in enumerate(case["variants"]):
                 if w["fmt"] == fmt and w["how"] == how and not w.get("comp") and not w.get("parts") and not w.get("rebind") \
@@ -497,9 +504,6 @@ def check_case(case, R):
         fi = plain("nt", "file")
         if "nt" in raw_blamed and fi is not None and not isinstance(outs[fi], U.Skipped):
             others = [o for j, o in outs.items() if not isinstance(o, U.Skipped) and case["variants"][j]["fmt"] not in LINE_FORMATS]
-            def sides_with(cand, o):
-                d = difference(cand, o, T, cfg, t)
-                return d is None or d[0] == "tie"
             votes_file = sum(1 for o in others if sides_with(outs[fi], o))
             votes_raw = 0 if isinstance(ref, U.Skipped) else sum(1 for o in others if sides_with(ref, o))
             if isinstance(ref, U.Skipped) or votes_file > votes_raw:
@@ -526,6 +530,23 @@ def check_case(case, R):
             if sane:                                    # do not blame the sane channels for differing from a mangled reference
                 ref, ref_name = outs[sane[0]], "channel %s (the raw N-Triples output has mangled IRIs)" % channel_name(case["variants"][sane[0]])
                 R.stats["reference_switched_to_rdflib"] += 1
+        # a reference that NO other format agrees with, while the other formats agree among themselves, is outvoted (a defect of the
+        # N-Triples reader would otherwise be blamed on every other channel); the nt channels are then reported as differing
+        if not isinstance(ref, U.Skipped) and ref_name == "raw N-Triples string":
+            others = [j for j, w in enumerate(case["variants"]) if w["fmt"] != "nt" and w["how"] in ("raw", "file", "graph")
+                      and not (w.get("comp") or w.get("parts") or w.get("rebind") or w.get("members"))
+                      and not isinstance(outs[j], U.Skipped) and j not in mangled]
+            if len(others) >= 3 and not any(sides_with(ref, outs[j]) for j in others):
+                votes = dict((j, sum(1 for k in others if sides_with(outs[j], outs[k]))) for j in others)
+                best = max(others, key=lambda j: (votes[j], case["variants"][j]["how"] == "graph", -j))
+                if votes[best] >= max(3, (2 * len(others) + 2) // 3):
+                    ref = outs[best]
+                    ref_name = "channel %s (no other format agrees with the raw N-Triples string, %d of %d agree with this one)" % (
+                        channel_name(case["variants"][best]), votes[best], len(others))
+                    ri = plain("tsv_spo", "raw")
+                    if ri is not None and not isinstance(outs[ri], U.Skipped) and sides_with(ref, outs[ri]):
+                        ref_variant = {"fmt": "tsv_spo", "how": "raw"}
+                    R.stats["reference_outvoted"] += 1
         if isinstance(ref, U.Skipped):
             R.crashes["reference: " + ref.signature] += 1
             return
@@ -693,7 +714,9 @@ TRICKY = ["bob@ex.org", "a#b", 'say "hi"', "back\\slash", u"caf\u00e9 \u4e2d", "
 # Characters at which str.splitlines() -- but neither N-Triples, TSV nor Turtle -- ends a line; written raw by the nt / tsv_spo /
 # turtle_iter renderers, always in the middle of the text.  (RDF/XML cannot carry U+000C: blank in that rendering only.)
 LINE_SEPARATORS = [u"first\u2028second", u"next\u0085line", u"page\x0cbreak", u"a\u2028b\u0085c\x0cd"]
-LANGUAGE_TAGGED = [("hello", "en"), ("hola", "es"), ("colour", "en-GB")]
+LANGUAGE_TAGGED = [("hello", "en"), ("hola", "es"), ("colour", "en-GB"),
+                   # '@' inside the text, followed later by a blank; the last one (no blank after '@') is the control
+                   ("reach me @ the office", "en"), ("a @ b", "en-GB"), ("bob@example.org", "en")]
 
 
 def _add_tricky(T, rng):
@@ -1047,7 +1070,21 @@ def _mutants():
         rt.get_content_gz_file = get_content_gz_file
         return lambda: setattr(rt, "get_content_gz_file", old)
 
-    return [("opened zip archives are cached per path and never invalidated", "C08:channel-differs:zip:stale-archive", zip_archive_cache),
+    def nt_language_tag_first_arroba():
+        import shexer.io.graph.yielder.nt_triples_yielder as m1
+        old = m1.NtTriplesYielder._look_for_last_index_of_literal_token
+
+        def _look_for_last_index_of_literal_token(self, target_str, first_index):
+            target_substring = target_str[first_index:]
+            if m1.there_is_arroba_after_last_quotes(target_substring):       # first '@' of the literal instead of the last one
+                return self._look_for_last_index_of_unspaced_token(target_str, first_index + target_substring.find("@"))
+            return old(self, target_str, first_index)
+        m1.NtTriplesYielder._look_for_last_index_of_literal_token = _look_for_last_index_of_literal_token
+        return lambda: setattr(m1.NtTriplesYielder, "_look_for_last_index_of_literal_token", old)
+
+    return [("the N-Triples tokenizer looks for the FIRST '@' of a language-tagged literal", "C08:channel-differs:nt",
+             nt_language_tag_first_arroba),
+            ("opened zip archives are cached per path and never invalidated", "C08:channel-differs:zip:stale-archive", zip_archive_cache),
             ("get_content_gz_file decompresses the first gzip member only", "-gz:multi-member", gz_first_member_only),
             ("the line readers decode IRIs with unicode_escape (raw non-ASCII becomes mojibake)", "C08:iri-mangled:", iri_unicode_escape),
             ("turtle_iter memoises prefixed names across a second @prefix for the same label", "C08:channel-differs:turtle_iter:prefix-rebound",
